@@ -25,7 +25,7 @@ def view_paths(rng, n):
         reads = lambda p: [('vget', dict(x=x, p=p, c=c, view=v, how=rng.choice(['indexer', 'array']))) for v in views] + \
             [('tget', dict(x=x, which=rng.choice(['F_mass', 'F_vol']))), ('uget', dict(x=x, p=p, c=c, units=rng.choice(sorted(ds.World.UNITS))))]
         ops += reads(ph)
-        kind = rng.choice(['T', 'P', 'phase', 'phases', 'link', 'copy_like', 'thermo', 'TP_back'])
+        kind = rng.choice(['T', 'P', 'phase', 'phases', 'link', 'copy_like', 'thermo', 'TP_back', 'copy', 'copy'])
         if kind == 'T':
             ops.append(('set_T', dict(x=x, T=350)))
         elif kind == 'P':
@@ -54,6 +54,15 @@ def view_paths(rng, n):
                     ('set_T', dict(x=y, T=350)), ('copy_like', dict(d=x, x=y))]
             if not multi:
                 ph = 'g'
+        elif kind == 'copy':
+            # a copy (or a pickled copy) made after the views of the original exist: the two must not share them
+            ops.append((rng.choice(['copy', 'copy', 'pickle']), dict(d=y, x=x)))
+            ops.append(('set_flow', dict(x=rng.choice([x, y]), p='l', c=c, v=20)))
+            for n in (y, x, y):
+                ops += [('vget', dict(x=n, p='l', c=c, view=v, how=rng.choice(['indexer', 'array']))) for v in views]
+                ops.append(('tget', dict(x=n, which=rng.choice(['F_mass', 'F_vol']))))
+            ops.append(('vset', dict(x=y, p='l', c=c, view=views[0], v=24, how='indexer')))
+            ops += [('vget', dict(x=n, p='l', c=c, view=views[0], how='indexer')) for n in (x, y)]
         elif kind == 'thermo':
             ops.append(('reset_thermo', dict(x=x, pkg='P2')))
         if multi and kind == 'copy_like':
